@@ -203,8 +203,8 @@ func (self *visitorUserNode) OnBool(v bool) error {
 		return newError(meta.ErrDismatchType, fmt.Sprintf("field '%s' is not a bool, got a json bool", fieldDesc.Name()), nil)
 	}
 
-	// packed list no need to write tag
-	if !fieldDesc.Type().IsList() {
+	// only the elements of a PACKED list go without a tag ([packed = false] lists are tagged per element)
+	if !fieldDesc.Type().IsList() || !fieldDesc.Type().IsPacked() {
 		if err = self.p.AppendTagByKind(fieldDesc.Number(), fieldDesc.Kind()); err != nil {
 			return err
 		}
@@ -281,8 +281,8 @@ func (self *visitorUserNode) OnInt64(v int64, n json.Number) error {
 		return newError(meta.ErrDismatchType, "json scalar does not match the descriptor", nil)
 	}
 
-	// packed list no need to write tag
-	if !fieldDesc.Type().IsList() {
+	// only the elements of a PACKED list go without a tag ([packed = false] lists are tagged per element)
+	if !fieldDesc.Type().IsList() || !fieldDesc.Type().IsPacked() {
 		if err = self.p.AppendTagByKind(fieldDesc.Number(), fieldDesc.Kind()); err != nil {
 			return err
 		}
@@ -380,8 +380,8 @@ func (self *visitorUserNode) OnFloat64(v float64, n json.Number) error {
 		return newError(meta.ErrDismatchType, "json scalar does not match the descriptor", nil)
 	}
 
-	// packed list no need to write tag
-	if !fieldDesc.Type().IsList() {
+	// only the elements of a PACKED list go without a tag ([packed = false] lists are tagged per element)
+	if !fieldDesc.Type().IsList() || !fieldDesc.Type().IsPacked() {
 		if err = self.p.AppendTagByKind(fieldDesc.Number(), fieldDesc.Kind()); err != nil {
 			return err
 		}
